@@ -18,8 +18,9 @@
 //!   replay <suite> <cid> <wv> <qid|-> <rejected_key_id>
 //! ops:
 //!   rt <spec>                 encode, decode, authenticate with the right and with a wrong key
-//!   mut <m1,m2,..> <spec>     encode, apply byte mutations (`x<idx>:<xor>` / `s<idx>:<val>`, idx mod len),
-//!                             decode through the tag dispatcher + authenticate; which layer rejected it
+//!   mut <m1,m2,..> <spec>     encode, apply byte mutations (`x<idx>:<xor>` = xor with a non-zero mask, `s<idx>:<val>` = set to
+//!                             val, or to !val when the byte already is val; idx mod len), decode through the tag
+//!                             dispatcher + authenticate; which layer rejected it
 //!   mutscan <x<mask>|s<val>> <spec>   the same for every byte position, summarised
 //!   dec <decoder> <suite> <hex>       one decoder on arbitrary bytes (+ authenticate)
 //!   fuzz <hex>                every decoder on arbitrary bytes, summarised
